@@ -70,7 +70,9 @@ OPEN_STATEMENTS = [
     'givens_left_unitary_is_unitary).',
     'givens_matrix_elements_sound is stated in the exact regime (entries below EQ_TOLERANCE are exactly 0, an imaginary part of the '
     'relative phase (a/|a|) conj(b/|b|) below EQ_TOLERANCE is exactly 0 - the real / complex test of the repaired code 7be94873); '
-    'behaviour for 0 < |x| < 1e-8 is outside the theorem.',
+    'behaviour for 0 < |x| < 1e-8 is outside the theorem.  For pairs with a real ratio (Im(a conj b) = 0: real, purely imaginary, '
+    'common phase) the phase hypothesis is proved, not assumed (givens_matrix_elements_sound_real_ratio); the executable test '
+    'realExactB decides the hypothesis exactly (real_exact_test_decides).',
 ]
 
 # --------------------------------------------------------------------------- exact complex numbers
